@@ -210,6 +210,11 @@ pub fn hash_of<T: Hash + ?Sized>(t: &T) -> u64 {
 }
 
 impl Stats {
+    /// A throw-away collector that records nothing (used while shrinking).
+    pub fn scratch() -> Stats {
+        Stats { frozen: true, ..Stats::default() }
+    }
+
     pub fn eval(&mut self) {
         if !self.frozen {
             self.evaluations += 1;
@@ -351,6 +356,8 @@ pub struct Cx {
     /// write the case about to run to a side file (for crashes that kill the process)
     pub crashy: bool,
     pub notes: Vec<String>,
+    /// proptest shrink iterations per failure (lower it for expensive cases)
+    pub shrink_iters: u32,
 }
 
 impl Cx {
@@ -487,6 +494,18 @@ impl Cx {
                 }
             };
             if let Err(fail) = res {
+                if std::env::var("VERIF_SHRINK").is_ok() {
+                    // re-shrink a recorded failure (debugging aid)
+                    let want = fail.signature.clone();
+                    let budget = std::env::var("VERIF_SHRINK").ok().and_then(|s| s.parse().ok()).unwrap_or(3000usize);
+                    let mut scratch = Stats { frozen: true, ..Stats::default() };
+                    let minimal = shrink_choices(choices.clone(), budget, |c| matches!(no_panic(|| f(&mut Src::new(c), &mut scratch)), Ok(Err(fl)) if fl.signature == want));
+                    let res2 = no_panic(|| f(&mut Src::new(&minimal), &mut scratch)).unwrap_or(Ok(()));
+                    if let Err(f2) = res2 {
+                        self.report(name, Some(&minimal), f2);
+                        return;
+                    }
+                }
                 self.report(name, Some(&choices), fail);
             }
             return;
@@ -510,7 +529,7 @@ impl Cx {
                 cases: remaining.min(u32::MAX as u64) as u32,
                 failure_persistence: None,
                 rng_seed: RngSeed::Fixed(seed_material),
-                max_shrink_iters: 3000,
+                max_shrink_iters: self.shrink_iters.min(200),
                 max_shrink_time: 0,
                 max_local_rejects: u32::MAX,
                 max_global_rejects: u32::MAX,
@@ -569,6 +588,28 @@ impl Cx {
             match result {
                 Ok(()) => break,
                 Err(TestError::Fail(_, minimal)) => {
+                    // second shrinking pass, structure-preserving: truncate, zero blocks, delete
+                    // blocks, halve values (choice sequences decode type-directed generators,
+                    // so zeroing a block collapses a sub-structure to its simplest alternative
+                    // without shifting what comes before it)
+                    let want_sig = last_fail.as_ref().map(|f| f.signature.clone());
+                    let minimal = {
+                        let mut scratch = Stats { frozen: true, ..Stats::default() };
+                        let this: &Cx = self;
+                        let budget = self.shrink_iters as usize;
+                        shrink_choices(minimal, budget, |c| {
+                            this.tick(name, Some(c), None);
+                            let r = match no_panic(|| f(&mut Src::new(c), &mut scratch)) {
+                                Ok(r) => r,
+                                Err(p) => Err(panic_failure(name, p, J::Null)),
+                            };
+                            match (&r, &want_sig) {
+                                (Err(fl), Some(w)) => fl.signature == *w,
+                                (Err(_), None) => true,
+                                _ => false,
+                            }
+                        })
+                    };
                     // re-run the minimal case to get its own description
                     let res = {
                         let mut scratch = Stats {
@@ -607,4 +648,93 @@ impl Cx {
 /// strategy is more convenient than a hand-written decoder, e.g. regex strings).
 pub fn draw<S: Strategy>(runner: &mut TestRunner, s: &S) -> S::Value {
     s.new_tree(runner).expect("strategy").current()
+}
+
+/// Structure-preserving shrinking of a choice sequence; `test` returns true while the case still
+/// fails with the same root cause. At most `budget` calls.
+pub fn shrink_choices(mut cur: Vec<u32>, budget: usize, mut test: impl FnMut(&[u32]) -> bool) -> Vec<u32> {
+    let mut calls = 0usize;
+    let mut attempt = |cand: &[u32], calls: &mut usize| -> bool {
+        if *calls >= budget {
+            return false;
+        }
+        *calls += 1;
+        test(cand)
+    };
+    // drop trailing zeros (an exhausted sequence reads as zeros)
+    while cur.last() == Some(&0) {
+        cur.pop();
+    }
+    // 1. truncate (binary search on the prefix length)
+    let (mut lo, mut hi) = (0usize, cur.len());
+    while lo < hi && calls < budget {
+        let mid = (lo + hi) / 2;
+        if attempt(&cur[..mid], &mut calls) {
+            hi = mid;
+        } else {
+            lo = mid + 1;
+        }
+    }
+    if hi < cur.len() && attempt(&cur[..hi], &mut calls) {
+        cur.truncate(hi);
+    }
+    let mut improved = true;
+    let mut rounds = 0;
+    while improved && calls < budget && rounds < 4 {
+        improved = false;
+        rounds += 1;
+        // 2. zero blocks
+        for size in [64usize, 16, 4, 1] {
+            let mut i = 0;
+            while i < cur.len() && calls < budget {
+                let end = (i + size).min(cur.len());
+                if cur[i..end].iter().any(|x| *x != 0) {
+                    let mut cand = cur.clone();
+                    for x in &mut cand[i..end] {
+                        *x = 0;
+                    }
+                    if attempt(&cand, &mut calls) {
+                        cur = cand;
+                        improved = true;
+                    }
+                }
+                i = end;
+            }
+        }
+        // 3. delete blocks
+        for size in [16usize, 4, 1] {
+            let mut i = 0;
+            while i + size <= cur.len() && calls < budget {
+                let mut cand = cur.clone();
+                cand.drain(i..i + size);
+                if attempt(&cand, &mut calls) {
+                    cur = cand;
+                    improved = true;
+                } else {
+                    i += size;
+                }
+            }
+        }
+        while cur.last() == Some(&0) {
+            cur.pop();
+        }
+    }
+    // 4. halve remaining values
+    let mut i = 0;
+    while i < cur.len() && calls < budget {
+        let mut v = cur[i];
+        while v > 0 && calls < budget {
+            let cand_v = v / 2;
+            let mut cand = cur.clone();
+            cand[i] = cand_v;
+            if attempt(&cand, &mut calls) {
+                cur = cand;
+                v = cand_v;
+            } else {
+                break;
+            }
+        }
+        i += 1;
+    }
+    cur
 }
